@@ -32,3 +32,14 @@ Definition enc_out (o : cout) : list Z :=
   end.
 Definition empty_cache : cstate := {| c_dict := []; c_mode := Linear; c_files := []; c_next := 0 |}.
 Definition run_cache (ops : list cop) : list (list Z) := map enc_out (snd (crun empty_cache ops)).
+
+(* CIA cache histories: [1; object id; pair; file] served, [2] not found, [0] done, [3] raised *)
+Definition enc_cia_out (o : cia_out) : list Z :=
+  match o with
+  | CServed ob => [1%Z; Z.of_nat (co_id ob); Z.of_nat (co_pair ob); Z.of_nat (co_file ob)]
+  | CNotFound => [2%Z]
+  | CDone => [0%Z]
+  | CRaised => [3%Z]
+  end.
+Definition run_ciacache (ops : list cia_op) : list (list Z) :=
+  map enc_cia_out (snd (cia_run {| ci_dict := []; ci_files := []; ci_next := 0 |} ops)).
